@@ -1372,7 +1372,13 @@ class IndexedAdvancedHTMLParser(AdvancedHTMLParser):
 
         if useIndex is True and self.indexClassNames is True:
 
-            elements = self._classNameMap.get(className, [])
+            # The index is per class name: look up the first name, then keep the elements which have the others
+            classNames = [x.strip() for x in className.strip().split(' ') if x.strip()]
+
+            elements = self._classNameMap.get(classNames.pop(0), [])
+
+            if len(classNames) > 0:
+                elements = [ em for em in elements if len([ matchClassName for matchClassName in classNames if matchClassName not in em.classList ]) == 0 ]
 
             if isFromRoot is False:
                 _hasTagInParentLine = self._hasTagInParentLine
